@@ -21,9 +21,14 @@ func SmartRedirectSlashes(next http.Handler) http.Handler {
 	fn := func(w http.ResponseWriter, r *http.Request) {
 		rctx := chi.RouteContext(r.Context())
 		if rctx != nil {
+			// Match the path chi is going to route on: the escaped path when
+			// the request has one (an escaped slash in a path value is not a
+			// segment separator), the decoded path otherwise.
 			var path string
 			if rctx.RoutePath != "" {
 				path = rctx.RoutePath
+			} else if r.URL.RawPath != "" {
+				path = r.URL.RawPath
 			} else {
 				path = r.URL.Path
 			}
